@@ -351,7 +351,9 @@ pub fn leaf_texts(tier: &str) -> Vec<String> {
     // spellings whose unusual constructor path must end in an ordinary value: an alternative written
     // the wrong way round or contradictory is dropped (a constructor that skips the validation of
     // BoundSet::new would keep an inverted interval; C09-7)
-    for t in ["2.0.0 - 1.0.0 || 1.0.0", "1.0.0 || 2.0.0 - 1.0.0", "1.0.0 - 1.0.0-a || 2.0.0", "2 - 1 || 2.0.0", ">=2.0.0 <1.0.0 || 1.0.0", ">1.0.0 <1.0.0 || 2.0.0", "1.0.0 - 2.0.0", "1.0.0-a - 2.0.0"] {
+    for t in ["2.0.0 - 1.0.0 || 1.0.0", "1.0.0 || 2.0.0 - 1.0.0", "1.0.0 - 1.0.0-a || 2.0.0", "2 - 1 || 2.0.0", ">=2.0.0 <1.0.0 || 1.0.0", ">1.0.0 <1.0.0 || 2.0.0", "1.0.0 - 2.0.0", "1.0.0-a - 2.0.0",
+        // a set contradicting itself at one version, every kind combination and order (C09-11)
+        ">1.0.0 <=1.0.0 || 2.0.0", "<=1.0.0 >1.0.0 || 2.0.0", ">=1.0.0 <1.0.0 || 2.0.0", "<1.0.0 >=1.0.0 || 2.0.0", "1.0.0 >1.0.0 || 2.0.0", "1.0.0 <1.0.0 || 2.0.0", "2.0.0 || >1.0.0-a <=1.0.0-a"] {
         out.push(t.to_string());
     }
     let mut one: Vec<String> = vec![];
